@@ -141,13 +141,17 @@ def profileOp (j : Json) : R Json := do
     let o0 := applyProfile { P with q := Quirks.none } steps l
     pure <| Json.mkObj [("out", defsJ o), ("out_fixed", defsJ o0), ("trigger", toJson (!(defsBeq o o0)))]
 
-/-- `c04.tt`: values of `rets` after the list, for every assignment of `inputs` (row k: input i = bit i of k) -/
+/-- `c04.tt`: values of `rets` after the list, for every assignment of `inputs` (row k: input i = bit i of k);
+with `rows` (a list of numbers k) only for those assignments, in that order (lists over many variables) -/
 def ttOp (j : Json) : R Json := do
   let l ← getDefs j "defs"
   let inputs ← j.getObjValAs? (List String) "inputs"
   let rets ← j.getObjValAs? (List String) "rets"
+  let rows : List Nat := match j.getObjValAs? (List Nat) "rows" with
+    | .ok r => r
+    | .error _ => List.range (2 ^ inputs.length)
   let mut out := ""
-  for k in [0:2 ^ inputs.length] do
+  for k in rows do
     let ρ := evalDefs (assignment inputs k) l
     for r in rets do
       out := out.push (if ρ r then '1' else '0')
